@@ -395,6 +395,9 @@ def run_enumeration(cfg, T, reward_fn, make_oracles, stats, prefix=(), budget_ki
                     stats.nontrivial.add(hash((cfg_hash, key)))
             for p in pts:
                 stats.choice_kinds[p[0]] = stats.choice_kinds.get(p[0], 0) + 1
+            for P in partitions_of(ctx.algo):
+                if P.get_depth() > stats.max_depth:
+                    stats.max_depth = P.get_depth()
             if len(stats.samples) < 3 and (state["n"] % 97 == 0):
                 stats.samples.append({"config": cfg, "script": [p[2] for p in pts],
                                       "points": [list(map(float, x)) for x in ctx.points[:6]],
